@@ -5,13 +5,15 @@ From Coq Require Import Uint63.
 
 (* ---- static facts of the program (known to the generator by construction) ---- *)
 
-Inductive lmode := LExact | LRange.
+Inductive lmode := LExact | LRange | LNone.
 
 (* one observed line number:
    spec: LRange — the number must lie in the admissible range of the innermost statement (or
                   block header) containing token ld_spec, the same token of that range in every
                   layout;
          LExact — it must be the line of token ld_spec in every layout;
+         LNone  — there is no line to report (a level that falls on a frame lost to a tail
+                  call): currentline/linedefined are -1, an error message gets no position;
    impl: gopher reports the line of token ld_impl (first token of the AST node that performs
          the operation; see notes/C17.md for the rule). *)
 Record ldesc := LDesc { ld_mode : lmode; ld_spec : Z; ld_impl : Z }.
@@ -98,6 +100,7 @@ Fixpoint zrange (a : Z) (n : nat) : list Z :=
 
 Definition line_spec (stmts : list stmt) (d : ldesc) (os : list (Z * list (Z * Z))) : bool :=
   match ld_mode d with
+  | LNone => forallb (fun o => fst o =? -1) os
   | LExact => forallb (fun o => fst o =? tokline (snd o) (ld_spec d)) os
   | LRange =>
       match innermost stmts (ld_spec d) None with
@@ -111,7 +114,10 @@ Definition line_spec (stmts : list stmt) (d : ldesc) (os : list (Z * list (Z * Z
   end.
 
 Definition line_impl (d : ldesc) (os : list (Z * list (Z * Z))) : bool :=
-  forallb (fun o => fst o =? tokline (snd o) (ld_impl d)) os.
+  match ld_mode d with
+  | LNone => forallb (fun o => fst o =? -1) os
+  | _ => forallb (fun o => fst o =? tokline (snd o) (ld_impl d)) os
+  end.
 
 Fixpoint forall_idx {A} (f : nat -> A -> bool) (k : nat) (l : list A) : bool :=
   match l with [] => true | x :: r => f k x && forall_idx f (S k) r end.
